@@ -193,6 +193,15 @@ def run_shard(rec, tier, seed, shard, nshards):
             except Exception as e:
                 rec.did_not_return("construct", e)
                 continue
+            callers_tables = None
+            if rng.random() < 0.3:
+                # the screen is built with mapping tables the CALLER owns (e.g. read from an experiment-space file)
+                callers_tables = (tuple(np.array(a, copy=True) for a in full.treatment_mapping), tuple(np.array(a, copy=True) for a in full.sample_mapping))
+                try:
+                    full = Screen(treatment_mapping=callers_tables[0], sample_mapping=callers_tables[1], **kw)
+                except Exception as e:
+                    rec.did_not_return("construct-with-own-tables", e)
+                    continue
             try:
                 root = R.mask_screen(full)
                 if rng.random() < 0.4:
@@ -213,6 +222,17 @@ def run_shard(rec, tier, seed, shard, nshards):
                 rec.violation("C03/op/raises", "preparing the simulation of an accepted screen (mask / permute / reveal / hold-out split) raised %r" % (e,), {"names": kw["treatment_names"].tolist()[:6], "doses": kw["treatment_doses"].tolist()[:6], "samples": kw["sample_names"].tolist()[:6]})
                 continue
             smap, tmap = root_maps(root)
+            if callers_tables is not None:
+                # ... and the caller goes on using its tables for something else once the simulation is prepared
+                try:
+                    callers_tables[0][1][:] = callers_tables[0][1] * 1000.0
+                    callers_tables[0][2][:] = callers_tables[0][2][::-1].copy()
+                    callers_tables[1][1][:] = callers_tables[1][1][::-1].copy()
+                    callers_tables[0][0][:] = "zz"
+                    callers_tables[1][0][:] = "zz"
+                    rec.count("lineages_whose_caller_rewrote_its_mapping_tables")
+                except ValueError:
+                    rec.count("caller_tables_read_only")
             space0 = ExperimentSpace.from_screen(root)
             ns0, nt0 = space0.n_unique_samples, space0.n_unique_treatments
             lhash = kit.array_hash(root.observations)
